@@ -57,6 +57,10 @@ CHECKS = {
         technique='model-based (stateful) property testing: generated edit histories on two configurations, per-step invariants relating the history log to the observed stored state and to a nesting model of suspend_tracking',
         text='Up to 40 generated operations (C03 edits incl. *args shifts, tag operations, TaggedValue assignment, assign, copy_with, materialize_defaults, update_callable, nested suspend enter/exit) on two configurations; after every step: exactly one NEW_VALUE entry per changed key holding the stored object or DELETED, none on the other configuration, nothing logged while suspended (own depth counter), last entries equal current value/tags, sequence ids fresh and increasing, entries located in the calling file, and finally history-independence of == and build. Location of tag-API entries is a listed known finding (pinned by an existing test).',
         note='Trusted: snapshots of __arguments__/__argument_tags__ taken by the harness, harness/argmodel only for operand choice.'),
+    'C17': dict(
+        technique='property-based frame-condition testing: generated (entry point, configuration) pairs; canonical form and path->identity map of the input compared before and after each call',
+        text='47 read-only / copy-returning entry points (build, ==, printers, graphviz, JSON/YAML dump, build_diff/apply_diff arguments, validators, three code generators, selections, grep, cast, copy_with, deepcopy_with incl. TaggedValue overrides, materialize_tags in all modes, trimming helpers, transforms, tag queries) are called on generated DAGs with sharing, tags (also on empty Buildables), long values, positional arguments and TaggedValues; the input must have the same canonical form and the same object at every path afterwards, whether the call returned or raised.',
+        note='Trusted: harness/canon.py; the API table in props/c17.py defines what is covered. History is excluded as the property states.'),
 }
 
 PENDING = {}
